@@ -18,14 +18,14 @@ func init() {
 		Title: "stored signatures stay with their artifact; hostile referrers are refused before their content is used",
 		Run:   runC19,
 		Explain: "structural clauses of the round-trip property, decided on all paths: " +
-			"(a) size caps: every content.FetchAll of the registry package is reachable only through `D.Size <= positive constant` on the very descriptor D it fetches (per loop iteration inside loops); " +
-			"(b) fetch: FetchSignatureBlob succeeds only through the manifest lookup, the blob cap and the fetch of the looked-up descriptor, returning that fetch's bytes and that descriptor; the lookup succeeds only for the two manifest media types, " +
-			"through the manifest cap, the fetch of the capped descriptor, a decode into the manifest type that belongs to the media type, and exactly one layer/blob, returning element 0 of the decoded list; " +
-			"(c) listing: the listing either asks the referrers API for (subject, notation artifact type) or filters predecessors: an element is appended only, per iteration and per media-type branch, through cap, fetch, decode into a per-iteration fresh target of the right type, " +
-			"non-nil subject, content.Equal(decoded subject, requested descriptor), artifact type taken from the decoded manifest of that iteration and equal to the notation type; failures return no list; " +
-			"(d) push: the blob is pushed with the caller's media type and bytes, the manifest packed (v1.1, artifact type from the config) with subject, annotations and exactly the pushed blob's descriptor as single layer, the config descriptor being the immutable notation config whose media type is the notation artifact type the listing filters on.",
-		NotCov:  "byte-for-byte equality itself (content addressing of oras-go: FetchAll verifies size and digest; PackManifest/PushBytes store what they are given) and the behaviour over push sequences in a real layout; remote referrers API filtering.",
-		Trusted: []string{"go/types, go/ssa", "oras-go content.FetchAll / content.Equal / PackManifest / PushBytes / Predecessors", "encoding/json"},
+			"(a) size caps: every read of a descriptor's content in the registry package (content.FetchAll, content.ReadAll, Fetch on an oras-go storage) is reachable only through `D.Size <= positive constant` on the very descriptor D it reads (per loop iteration inside loops; when D is a parameter of an unexported helper that does not test it, at every call site of the helper); " +
+			"(b) fetch: FetchSignatureBlob succeeds only through the manifest lookup, the blob cap and the fetch of the looked-up descriptor (FetchAll, or a module function that is Fetch + ReadAll on one descriptor), returning that fetch's bytes and that descriptor; the lookup succeeds only for the two manifest media types " +
+			"(tested in the lookup or in a helper that succeeds only through such a test), through the manifest cap, the fetch of the capped descriptor, a decode (inline or in a helper) into the manifest type that belongs to the media type, and exactly one layer/blob, returning element 0 of the decoded list; " +
+			"(c) listing: the listing either asks the referrers API for (subject, notation artifact type) or filters predecessors: an element is appended only, per iteration and per media type (on the paths an element of that media type can take, whatever the dispatch looks like), through cap, fetch, decode into a per-iteration fresh target of the right type, " +
+			"non-nil subject, content.Equal(decoded subject, requested descriptor) or its three field comparisons, a test against the notation type of the artifact type the listed descriptor carries, which is the one decoded from the manifest of that iteration; the listed descriptor is a per-iteration copy of the current predecessor whose identity fields nobody writes; failures return no list; " +
+			"(d) push: the blob is pushed (PushBytes, or NewDescriptorFromBytes + Push of a reader over the same bytes) with the caller's media type and bytes, the manifest packed (v1.1, artifact type from the config) with subject, annotations and exactly the pushed blob's descriptor as single layer, the config descriptor being the immutable notation config whose media type is the notation artifact type the listing filters on.",
+		NotCov:  "byte-for-byte equality itself (content addressing of oras-go: FetchAll / ReadAll verify size and digest; PackManifest/PushBytes/Push store what they are given) and the behaviour over push sequences in a real layout; remote referrers API filtering.",
+		Trusted: []string{"go/types, go/ssa", "oras-go content.FetchAll (= Fetch + content.ReadAll) / content.Equal (= size, digest and media type equal) / PackManifest / PushBytes (= content.NewDescriptorFromBytes + Push) / Predecessors", "encoding/json"},
 	})
 }
 
@@ -103,36 +103,35 @@ func fieldStores(fn *ssa.Function, base ssa.Value, field string) []*ssa.Store {
 // (a) every FetchAll is capped on its own descriptor
 func c19Caps(c *Ctx) {
 	w := c.W
-	rule := "size cap before use: content.FetchAll(_, _, D) is reachable only through `D.Size <= K` (K a positive constant) on the same descriptor D, which is not modified in between"
-	n := 0
+	rule := "size cap before use: a read of D's content (content.FetchAll(_, _, D), content.ReadAll(_, D), x.Fetch(_, D)) is reachable only through `D.Size <= K` (K a positive constant) on the same descriptor D, which is not modified in between"
+	// The sinks are the calls that read, or allocate room for, what a descriptor declares: content.FetchAll(_, _, D),
+	// content.ReadAll(_, D) (both allocate D.Size bytes) and x.Fetch(_, D) on an oras-go storage. The cap is decided
+	// where the sink stands; when the sink's descriptor is a parameter of an unexported helper that does not test it
+	// itself, the same obligation is decided at each call site of the helper for the argument bound to that
+	// parameter (c19CapDecide): a fetch moved into `fetch(ctx, src, d)` is capped iff every caller caps its `d`.
+	var sites []c19CapSite
 	for _, fn := range w.FuncsOfPkg("registry") {
-		calls := findCalls(fn, "oras/content.FetchAll")
-		if len(calls) == 0 {
-			continue
-		}
-		c.SeenFn(fn.String())
-		fi := w.Info(fn)
-		for k, ci := range calls {
-			n++
-			call := ci.(*ssa.Call)
-			D := call.Call.Args[2]
-			d := desc(D)
-			g := guardsAt(fi, call)
+		for _, ci := range allCalls(fn) {
+			D := c19SinkDesc(ci)
+			if D == nil {
+				continue
+			}
+			c.SeenFn(fn.String())
 			c.Evals++
-			K, ok := c19Capped(g, d)
-			// D's Size must not be written after the check: no store to the Size field of an alloc D is loaded from
-			mod := false
-			if un, isLoad := D.(*ssa.UnOp); isLoad {
-				if al, isAl := un.X.(*ssa.Alloc); isAl {
-					mod = len(fieldStores(fn, al, "Size")) > 0
-				}
-			}
-			key := fmt.Sprintf("cap-before-fetch/%s#%d", fnName(fn), k+1)
-			if ok && !mod {
-				c.OK(key, rule+fmt.Sprintf(" [K=%d]", K), w.InstrPos(call))
-			} else {
-				c.Bad(key, rule, w.InstrPos(call), fmt.Sprintf("fetched descriptor %s; size modified=%v; facts on every path to the fetch: %s", trunc(d, 120), mod, summarizeLabels(g, 8)))
-			}
+			c19CapDecide(w, fn, ci, D, 0, &sites)
+		}
+	}
+	sites = c19SortSites(sites)
+	n := len(sites)
+	perFn := map[string]int{}
+	for _, s := range sites {
+		c.SeenFn(s.fn.String())
+		perFn[fnName(s.fn)]++
+		key := fmt.Sprintf("cap-before-fetch/%s#%d", fnName(s.fn), perFn[fnName(s.fn)])
+		if s.ok {
+			c.OK(key, rule+fmt.Sprintf(" [K=%d]", s.K), w.InstrPos(s.in))
+		} else {
+			c.Bad(key, rule, w.InstrPos(s.in), s.detail)
 		}
 	}
 	if n < 2 {
@@ -165,13 +164,14 @@ func c19Fetch(c *Ctx) {
 	m := Mode{Kind: mErr}
 	s := w.Summarize(F, m)
 	c.Evals += s.States
-	calls := findCalls(F, "oras/content.FetchAll")
-	if len(calls) != 1 {
-		c.Bad("fetch/blob-fetch", "FetchSignatureBlob fetches exactly one blob", w.FnPos(F), fmt.Sprintf("%d FetchAll calls", len(calls)))
+	// the blob fetch: content.FetchAll or a module function that is that very read (c19FetchEquiv)
+	fsites := c19FetchSites(w, F)
+	if len(fsites) != 1 {
+		c.Bad("fetch/blob-fetch", "FetchSignatureBlob fetches exactly one blob", w.FnPos(F), fmt.Sprintf("%d fetch calls", len(fsites)))
 		return
 	}
-	fa := calls[0].(*ssa.Call)
-	D := loadOrigin(fa.Call.Args[2])
+	fa := fsites[0].Call
+	D := loadOrigin(fsites[0].D)
 	ex, _ := D.(*ssa.Extract)
 	var G *ssa.Function
 	var gcall *ssa.Call
@@ -196,7 +196,7 @@ func c19Fetch(c *Ctx) {
 	c.Check(okArg, "fetch/blob-descriptor-origin", "the fetched blob descriptor is the result of the manifest lookup for the requested signature manifest descriptor", w.InstrPos(gcall), gd)
 	c.requireOnExits("fetch", F, s.Exits, []Need{
 		{Name: "lookup-error", What: "manifest lookup err == nil", Subs: []string{"EQ(" + gd + "#err,nil)"}},
-		{Name: "blob-fetch-error", What: "FetchAll(looked-up blob descriptor) err == nil", Subs: []string{"EQ(" + desc(fa) + "#err,nil)"}},
+		{Name: "blob-fetch-error", What: "FetchAll(looked-up blob descriptor) err == nil", Subs: []string{c19ErrNil(fa)}},
 	})
 	okRet := len(s.Exits) > 0
 	for _, e := range s.Exits {
@@ -206,7 +206,7 @@ func c19Fetch(c *Ctx) {
 	}
 	c.Check(okRet, "fetch/returns-fetched", "the bytes returned are the fetch result and the descriptor returned is the descriptor that was capped and fetched", w.FnPos(F), "")
 	// the fetcher is the target (or its blob store)
-	fd := desc(fa.Call.Args[1])
+	fd := desc(fsites[0].Src)
 	c.Check(strings.Contains(fd, "param:"+F.Params[0].Name()+".GraphTarget") && !strings.Contains(fd, "Manifests("), "fetch/blob-store", "the blob is fetched from the repository's own target (its blob store for remote repositories)", w.InstrPos(fa), fd)
 
 	// the lookup
@@ -228,13 +228,15 @@ func c19Fetch(c *Ctx) {
 	}
 	eqI := fmt.Sprintf("EQ(%s.MediaType,const:%q)", P, im)
 	eqA := fmt.Sprintf("EQ(%s.MediaType,const:%q)", P, am)
-	blocked, n, wit := exitsBlocked(gi, m, anyOf(eqI, eqA), nil)
-	c.slot(blocked, n, "lookup/media-type", "the signature manifest descriptor's media type is the image manifest or the artifact manifest type", w.FnPos(G), "success without either media type", wit...)
-	gcalls := findCalls(G, "oras/content.FetchAll")
+	// media type: no success once every edge that implies "media type is the image or the artifact manifest type" is
+	// cut — an edge of the lookup itself, or the passing edge of a helper that succeeds only through such an edge
+	mtCut := c19GateCut(w, G, map[string]bool{eqI: true, eqA: true}, c19Same, 0)
+	wit := gi.successWitness(m, entryState(), mtCut)
+	c.slot(wit == nil, len(mtCut), "lookup/media-type", "the signature manifest descriptor's media type is the image manifest or the artifact manifest type", w.FnPos(G), "success without either media type", wit...)
 	var mf *ssa.Call
-	for _, ci := range gcalls {
-		if desc(ci.Common().Args[2]) == P {
-			mf = ci.(*ssa.Call)
+	for _, fs := range c19FetchSites(w, G) {
+		if desc(fs.D) == P {
+			mf = fs.Call
 		}
 	}
 	if mf == nil {
@@ -242,49 +244,15 @@ func c19Fetch(c *Ctx) {
 		return
 	}
 	c.requireOnExits("lookup", G, gs.Exits, []Need{
-		{Name: "manifest-fetch-error", What: "FetchAll(signature manifest descriptor) err == nil", Subs: []string{"EQ(" + desc(mf) + "#err,nil)"}},
+		{Name: "manifest-fetch-error", What: "FetchAll(signature manifest descriptor) err == nil", Subs: []string{c19ErrNil(mf)}},
 	})
-	// decode sites
-	type dec struct {
-		call *ssa.Call
-		al   *ssa.Alloc
-		typ  string
-	}
-	var decs []dec
-	for _, ci := range findCalls(G, "encoding/json.Unmarshal") {
-		call := ci.(*ssa.Call)
-		if mi, ok := call.Call.Args[1].(*ssa.MakeInterface); ok {
-			if al, ok := mi.X.(*ssa.Alloc); ok {
-				decs = append(decs, dec{call, al, namedOf(al.Type())})
-			}
-		}
-	}
+	// exactly one blob: every success exit returns element 0 of a list whose length was tested to be 1; the list
+	// resolves (through phis and helper results) to the layer/blob field of the manifests decoded from the fetched bytes
 	listField := map[string]string{"ocispec.Manifest": "Layers", "ngo/registry/internal/artifactspec.Artifact": "Blobs"}
-	okDec := len(decs) >= 2
-	detail := ""
-	var errEdges []string
-	for _, d := range decs {
-		g := gi.GuardsOf(d.call)
-		src := desc(d.call.Call.Args[0]) == desc(mf)+"#0"
-		var okT bool
-		switch d.typ {
-		case "ocispec.Manifest":
-			okT = labelHas(g, eqI)
-		case "ngo/registry/internal/artifactspec.Artifact":
-			okT = labelHas(g, eqA) || labelHas(g, fmt.Sprintf("NE(%s.MediaType,const:%q)", P, im))
-		}
-		if !src || !okT {
-			okDec = false
-			detail += fmt.Sprintf("decode into %s at %s: source is the fetched manifest=%v, media-type guard=%v; ", d.typ, w.InstrPos(d.call), src, okT)
-		}
-		errEdges = append(errEdges, "EQ("+desc(d.call)+",nil)")
-	}
-	c.Check(okDec, "lookup/decode-matches-media-type", "the fetched manifest is decoded into the manifest type that belongs to its media type (image manifest -> ocispec.Manifest, artifact manifest -> artifactspec.Artifact)", w.FnPos(G), detail)
-	blocked, n, wit = exitsBlocked(gi, m, anyOf(errEdges...), nil)
-	c.slot(blocked, n, "lookup/decode-error", "the manifest decode error fails the lookup", w.FnPos(G), "success with a decode error", wit...)
-	// exactly one blob, element 0 of the decoded list
+	rs := &c19ListResolver{w: w, gates: map[*ssa.Function][]string{}}
+	var decs []c19Decode
 	okOne := len(gs.Exits) > 0
-	detail = ""
+	detail := ""
 	for _, e := range gs.Exits {
 		r := e.Ret.Results[0]
 		var list ssa.Value
@@ -309,31 +277,57 @@ func c19Fetch(c *Ctx) {
 			okOne = false
 			detail = "no `len == 1` gate on " + desc(list)
 		}
-		// leaves of the list
-		var leaves []ssa.Value
-		if ph, ok := list.(*ssa.Phi); ok {
-			leaves = ph.Edges
-		} else {
-			leaves = []ssa.Value{list}
+		ls := rs.leaves(G, list, c19Same, map[string]string{}, 0)
+		if rs.why != "" || len(ls) == 0 {
+			okOne = false
+			detail = rs.why
 		}
-		for _, lf := range leaves {
-			okLeaf := false
-			if un, ok := lf.(*ssa.UnOp); ok {
-				if fa, ok := un.X.(*ssa.FieldAddr); ok {
-					for _, d := range decs {
-						if fa.X == d.al && fieldName(fa.X.Type(), fa.Field) == listField[d.typ] {
-							okLeaf = true
-						}
-					}
-				}
-			}
-			if !okLeaf {
+		for _, d := range ls {
+			if d.Field != listField[d.Typ] || d.Field == "" {
 				okOne = false
-				detail = "list leaf " + desc(lf) + " is not the layer/blob list of a decoded manifest"
+				detail = "list leaf " + desc(d.X) + "." + d.Field + " is not the layer/blob list of a decoded manifest"
 			}
 		}
+		decs = append(decs, ls...)
 	}
 	c.Check(okOne, "lookup/exactly-one-blob", "the lookup succeeds only with exactly one layer/blob and returns element 0 of the decoded manifest's own list", w.FnPos(G), detail)
+	// the decodes the list comes from
+	okDec := len(decs) >= 2
+	detail = ""
+	for _, d := range decs {
+		g := d.Guard
+		src := d.Src == res(mf, 0)
+		var okT bool
+		switch d.Typ {
+		case "ocispec.Manifest":
+			okT = labelHas(g, eqI)
+		case "ngo/registry/internal/artifactspec.Artifact":
+			okT = labelHas(g, eqA) || labelHas(g, fmt.Sprintf("NE(%s.MediaType,const:%q)", P, im))
+		}
+		if !src || !okT {
+			okDec = false
+			detail += fmt.Sprintf("decode into %s at %s: source is the fetched manifest=%v, media-type guard=%v; ", d.Typ, w.InstrPos(d.U), src, okT)
+		}
+	}
+	c.Check(okDec, "lookup/decode-matches-media-type", "the fetched manifest is decoded into the manifest type that belongs to its media type (image manifest -> ocispec.Manifest, artifact manifest -> artifactspec.Artifact)", w.FnPos(G), detail)
+	// decode error: in every function on the way, no success once the passing edges "decode succeeded" / "the decoding
+	// helper reported no error" are cut
+	blockedAll, nGates := true, 0
+	var dwit []string
+	for _, f := range w.moduleCallees(G) {
+		ls := rs.gates[f]
+		if len(ls) == 0 {
+			continue
+		}
+		c.SeenFn(f.String())
+		blocked, n, wt := exitsBlocked(w.Info(f), m, anyOf(ls...), nil)
+		nGates += n
+		if !blocked || n == 0 {
+			blockedAll = false
+			dwit = wt
+		}
+	}
+	c.slot(blockedAll, nGates, "lookup/decode-error", "the manifest decode error fails the lookup", w.FnPos(G), "success with a decode error", dwit...)
 }
 
 // (c) listing entry
@@ -455,14 +449,12 @@ func c19Referrers(c *Ctx, SR *ssa.Function) {
 		c.Bad("list/append", "the appended element is the per-iteration copy of the current predecessor", w.InstrPos(app), "appended: "+desc(app.Call.Args[1]))
 		return
 	}
-	nd := desc(node)
-	// node initialised from the current element
-	initOK := false
-	for _, r := range *node.Referrers() {
-		if st, ok := r.(*ssa.Store); ok && st.Addr == node {
-			initOK = strings.HasPrefix(desc(st.Val), pd+"#0[")
-		}
-	}
+	// The appended variable and what it is a copy of (c19CurrentElement): the names of the current referrer. The rules
+	// below accept a test / fetch on any of them (`node` filled in place; or `node` left alone and a copy made for the
+	// result; or an index loop with `node := preds[i]`).
+	cur := c19CurrentElement(node, pd, loop, lb)
+	initOK := cur.Why == ""
+	names := sortedKeys(cur.Names)
 	// results returned: success exits return the phi fed by the append
 	okRet := len(s.Exits) > 0
 	for _, e := range s.Exits {
@@ -484,81 +476,95 @@ func c19Referrers(c *Ctx, SR *ssa.Function) {
 			}
 		}
 	}
-	c.Check(initOK && okRet && okNil, "list/result", "the list returned on success is exactly what the loop appended (per-iteration copies of predecessors); every failure returns no list", w.InstrPos(app), fmt.Sprintf("element copy=%v success returns appended=%v failures return nil=%v", initOK, okRet, okNil))
+	c.Check(initOK && okRet && okNil, "list/result", "the list returned on success is exactly what the loop appended (per-iteration copies of predecessors); every failure returns no list", w.InstrPos(app), fmt.Sprintf("element copy=%v (%s) success returns appended=%v failures return nil=%v", initOK, cur.Why, okRet, okNil))
+	if !initOK {
+		return
+	}
 
-	// media-type branches
+	// Media types. The rules are path rules over one iteration, not over the shape of the dispatch: for an element of
+	// media type M, the edges whose fact contradicts "current referrer's media type == M" (`!= M`, `== the other
+	// constant`) cannot be taken, so cutting them (and the back edges) leaves a superset of the paths such an element
+	// can run; what every remaining path from the body entry to the append passes is what holds for every listed
+	// element of media type M. A switch, an if/else chain, a guard clause followed by shared code and a media-type
+	// flag tested later all yield the same facts. (The two constants are different strings, checked here.)
 	type branch struct {
-		name, mt, typ, atField string
-		entry                  *ssa.BasicBlock
+		name, mt, other, typ, atField string
 	}
 	brs := []*branch{
-		{name: "artifact-manifest", mt: am, typ: "ngo/registry/internal/artifactspec.Artifact", atField: ".ArtifactType"},
-		{name: "image-manifest", mt: im, typ: "ocispec.Manifest", atField: ".Config.MediaType"},
+		{name: "artifact-manifest", mt: am, other: im, typ: "ngo/registry/internal/artifactspec.Artifact", atField: ".ArtifactType"},
+		{name: "image-manifest", mt: im, other: am, typ: "ocispec.Manifest", atField: ".Config.MediaType"},
 	}
-	for _, b := range SR.Blocks {
-		if !lb[b.Index] {
-			continue
+	if am == "" || im == "" || am == im || nt == "" {
+		c.Unk("list/anchors", "anchor: the two manifest media type constants and the notation artifact type", w.FnPos(SR), fmt.Sprintf("%q %q %q", am, im, nt))
+		return
+	}
+	mtFact := func(op, mt string) map[string]bool {
+		m := map[string]bool{}
+		for _, n := range names {
+			m[fmt.Sprintf("%s(%s.MediaType,const:%q)", op, n, mt)] = true
 		}
-		iff, ok := blockTerm(b).(*ssa.If)
-		if !ok {
-			continue
-		}
-		for _, br := range brs {
-			if condLabel(iff.Cond, true) == fmt.Sprintf("EQ(%s.MediaType,const:%q)", nd, br.mt) {
-				br.entry = b.Succs[0]
+		return m
+	}
+	union := func(ms ...map[edgeKey]bool) map[edgeKey]bool {
+		out := map[edgeKey]bool{}
+		for _, m := range ms {
+			for e := range m {
+				out[e] = true
 			}
 		}
+		return out
 	}
-	// every path body -> append passes one of the media-type edges
-	cut := backEdges(loop.Header)
-	for _, br := range brs {
-		if br.entry != nil {
-			cutInto(fi, br.entry, cut)
-		}
-	}
+	bodyStart := []state{{loop.Body.Index, 0, -1}}
+	// every path body -> append passes an edge "media type == one of the two constants"
+	cut := union(backEdges(loop.Header), c19EdgesLabelled(SR, lb, mtFact("EQ", am)), c19EdgesLabelled(SR, lb, mtFact("EQ", im)))
 	c.Evals++
-	c.Check(!fi.reachHit([]state{{loop.Body.Index, 0, -1}}, cut, blocksOf(app)), "list/only-manifest-media-types", "an element is appended only on a path through one of the two manifest media-type branches", w.InstrPos(app), "the append is reachable without a media-type branch")
-	atStores := fieldStores(SR, node, "ArtifactType")
+	c.Check(app.Block() != loop.Body && !fi.reachHit(bodyStart, cut, blocksOf(app)), "list/only-manifest-media-types", "an element is appended only on a path through one of the two manifest media-type tests", w.InstrPos(app), "the append is reachable without a media-type test on the current referrer")
+	fetches := c19FetchSites(w, SR)
 	for _, br := range brs {
 		key := "list/" + br.name
-		if br.entry == nil {
-			c.Bad(key+"/branch", "the filter has a branch for media type "+br.mt, w.FnPos(SR), "no `node.MediaType == "+br.mt+"` edge in the loop")
-			continue
-		}
-		labels, reach := fi.mustPassBetweenCut([]int{br.entry.Index}, blocksOf(app), backEdges(loop.Header))
+		cutM := union(backEdges(loop.Header), c19EdgesLabelled(SR, lb, mtFact("NE", br.mt)), c19EdgesLabelled(SR, lb, mtFact("EQ", br.other)))
+		labels, reach := fi.mustPassBetweenCut([]int{loop.Body.Index}, blocksOf(app), cutM)
 		c.Evals++
 		if !reach {
-			c.Bad(key+"/branch", "an element of media type "+br.mt+" can be listed", w.FnPos(SR), "the append is unreachable from this branch")
+			c.Bad(key+"/branch", "an element of media type "+br.mt+" can be listed", w.FnPos(SR), "the append is unreachable for a referrer of this media type")
 			continue
 		}
-		// the decode target of this branch
+		flow := c19NewFlow(fi, loop.Body, cutM, cur.Allocs)
+		// the decode target of this media type
 		var X *ssa.Alloc
 		var U *ssa.Call
-		for l := range labels {
-			if strings.HasPrefix(l, "EQ(call:encoding/json.Unmarshal(") {
-				for _, ci := range findCalls(SR, "encoding/json.Unmarshal") {
-					cc := ci.(*ssa.Call)
-					if "EQ("+desc(cc)+",nil)" == l {
-						if mi, ok := cc.Call.Args[1].(*ssa.MakeInterface); ok {
-							if al, ok := mi.X.(*ssa.Alloc); ok && namedOf(al.Type()) == br.typ {
-								X, U = al, cc
-							}
-						}
-					}
+		for _, ci := range findCalls(SR, "encoding/json.Unmarshal") {
+			cc := ci.(*ssa.Call)
+			if !labelHas(labels, "EQ("+desc(cc)+",nil)") {
+				continue
+			}
+			if mi, ok := cc.Call.Args[1].(*ssa.MakeInterface); ok {
+				if al, ok := mi.X.(*ssa.Alloc); ok && namedOf(al.Type()) == br.typ {
+					X, U = al, cc
 				}
 			}
 		}
-		_, capOK := c19Capped(labels, nd)
-		fetch := "call:oras/content.FetchAll("
-		_, fetchOK := hasLabel(labels, "EQ("+fetch, ","+nd+")#err,nil)")
+		capOK := false
+		for _, n := range names {
+			if _, ok := c19Capped(labels, n); ok {
+				capOK = true
+			}
+		}
+		// the fetch of the current referrer whose error is checked on the way
+		var fetch *ssa.Call
+		for _, fs := range fetches {
+			if cur.Names[desc(fs.D)] && labelHas(labels, c19ErrNil(fs.Call)) {
+				fetch = fs.Call
+			}
+		}
 		c.Check(capOK, key+"/cap", "per iteration: the referrer's declared size is capped before it is fetched", w.InstrPos(app), summarizeLabels(labels, 6))
-		c.Check(fetchOK, key+"/fetch-error", "per iteration: FetchAll(current referrer) err == nil", w.InstrPos(app), summarizeLabels(labels, 6))
+		c.Check(fetch != nil, key+"/fetch-error", "per iteration: FetchAll(current referrer) err == nil", w.InstrPos(app), summarizeLabels(labels, 6))
 		if X == nil {
 			c.Bad(key+"/decode", "per iteration: the fetched manifest is decoded into "+br.typ+" and the decode error fails the listing", w.InstrPos(app), summarizeLabels(labels, 8))
 			continue
 		}
 		xd := desc(X)
-		srcOK := strings.HasPrefix(desc(U.Call.Args[0]), fetch) && strings.HasSuffix(desc(U.Call.Args[0]), ","+nd+")#0")
+		srcOK := fetch != nil && desc(U.Call.Args[0]) == res(fetch, 0)
 		c.Check(srcOK, key+"/decode", "per iteration: the fetched manifest of the current referrer is decoded into "+br.typ+" and the decode error fails the listing", w.InstrPos(U), "decoded bytes: "+desc(U.Call.Args[0]))
 		// fresh per iteration
 		fresh := lb[X.Block().Index] && X.Block() != loop.Header
@@ -573,58 +579,64 @@ func c19Referrers(c *Ctx, SR *ssa.Function) {
 			}
 		}
 		c.Check(fresh, key+"/decode-target-fresh", "the decode target is fresh in every iteration (json.Unmarshal keeps fields that the input omits: a reused target leaks the previous referrer's subject and type)", w.InstrPos(X), "the decode target "+xd+" lives across iterations and is not reset")
+		// subject: content.Equal, or its definition spelled out (oras-go content/descriptor.go: Equal(a, b) is
+		// a.Size == b.Size && a.Digest == b.Digest && a.MediaType == b.MediaType) — inline or through a module
+		// predicate, whose three must-pass facts the engine hands up in this frame
 		_, nn := hasLabel(labels, "NE("+xd+".Subject,nil)")
 		eq := labelHas(labels, "T(call:oras/content.Equal("+xd+".Subject,"+dp+"))") || labelHas(labels, "T(call:oras/content.Equal("+dp+","+xd+".Subject))")
+		if !eq {
+			eq = true
+			for _, f := range []string{"MediaType", "Digest", "Size"} {
+				if !labelHas(labels, "EQ("+xd+".Subject."+f+","+dp+"."+f+")") && !labelHas(labels, "EQ("+dp+"."+f+","+xd+".Subject."+f+")") {
+					eq = false
+				}
+			}
+		}
 		c.Check(nn && eq, key+"/subject-equality", "per iteration: the decoded subject is non-nil and content.Equal to the requested descriptor (all of media type, digest and size)", w.InstrPos(app), fmt.Sprintf("non-nil=%v equal=%v facts: %s", nn, eq, summarizeLabels(labels, 8)))
-		c.Check(labelHas(labels, fmt.Sprintf("EQ(%s.ArtifactType,const:%q)", nd, nt)), key+"/artifact-type", "per iteration: the artifact type is the notation signature type", w.InstrPos(app), summarizeLabels(labels, 8))
-		// the artifact type compared is the decoded one: on the branch exactly one store to node.ArtifactType, from X, on every path
-		var mine []*ssa.Store
-		for _, st := range atStores {
-			if fi.reachHit([]state{{br.entry.Index, 0, -1}}, backEdges(loop.Header), blocksOf(st)) || st.Block() == br.entry {
-				mine = append(mine, st)
+		// artifact type: some test `V == notation type` is passed on every path, and V is what the listed descriptor
+		// carries as its artifact type at the append (the field itself, or the local the field is then filled from)
+		elemAT, okElem := flow.field(node, "ArtifactType", app, 0)
+		tests, ats := c19ConstTests(flow, lb, blocksOf(app), nt)
+		okTest := false
+		var seen []string
+		for i, V := range tests {
+			ls, ok := flow.resolve(V, ats[i], 0)
+			seen = append(seen, c19Keys(ls))
+			if ok && okElem && c19SetEq(ls, elemAT) {
+				okTest = true
 			}
 		}
-		okAT := len(mine) == 1 && desc(mine[0].Val) == xd+br.atField
-		if okAT {
-			cut := backEdges(loop.Header)
-			cutInto(fi, mine[0].Block(), cut)
-			if mine[0].Block() != br.entry && fi.reachHit([]state{{br.entry.Index, 0, -1}}, cut, blocksOf(app)) {
-				okAT = false
-			}
-		}
+		c.Check(okTest, key+"/artifact-type", "per iteration: the artifact type is the notation signature type", w.InstrPos(app), fmt.Sprintf("compared with the notation type: %v; the listed descriptor carries %s; facts: %s", seen, c19Keys(elemAT), summarizeLabels(labels, 8)))
+		// ... and it is the decoded one
 		c.Evals++
-		c.Check(okAT, key+"/artifact-type-origin", "the artifact type compared is the one decoded from this referrer's manifest ("+strings.TrimPrefix(br.atField, ".")+"), set on every path to the append", w.InstrPos(app), fmt.Sprintf("%d stores on the branch: %v", len(mine), func() []string {
-			var o []string
-			for _, st := range mine {
-				o = append(o, desc(st.Val))
-			}
-			return o
-		}()))
+		c.Check(okTest && okElem && c19Only(elemAT, X, br.atField), key+"/artifact-type-origin", "the artifact type compared is the one decoded from this referrer's manifest ("+strings.TrimPrefix(br.atField, ".")+"), set on every path to the append", w.InstrPos(app), fmt.Sprintf("the listed descriptor's artifact type at the append: %s (determined on every path=%v)", c19Keys(elemAT), okElem))
 		// annotations
-		anSt := fieldStores(SR, node, "Annotations")
-		okAn := false
-		for _, st := range anSt {
-			if desc(st.Val) == xd+".Annotations" && (st.Block() == br.entry || fi.reachHit([]state{{br.entry.Index, 0, -1}}, backEdges(loop.Header), blocksOf(st))) {
-				okAn = true
-			}
-		}
-		c.Check(okAn, key+"/annotations", "the listed descriptor carries the annotations of the decoded manifest", w.InstrPos(app), "")
+		elemAn, okAn := flow.field(node, "Annotations", app, 0)
+		c.Check(okAn && c19Only(elemAn, X, ".Annotations"), key+"/annotations", "the listed descriptor carries the annotations of the decoded manifest", w.InstrPos(app), fmt.Sprintf("annotations at the append: %s (determined on every path=%v)", c19Keys(elemAn), okAn))
 	}
-	// no other writes to the element
+	// no other writes to the element, nor to the variables it was copied from; none of them is handed out by address
 	okW := true
-	for _, b := range SR.Blocks {
-		for _, in := range b.Instrs {
-			if st, ok := in.(*ssa.Store); ok {
-				if fa, ok := st.Addr.(*ssa.FieldAddr); ok && fa.X == node {
-					f := fieldName(fa.X.Type(), fa.Field)
-					if f != "ArtifactType" && f != "Annotations" {
-						okW = false
+	why := ""
+	for _, al := range cur.Allocs {
+		for _, b := range SR.Blocks {
+			for _, in := range b.Instrs {
+				if st, ok := in.(*ssa.Store); ok {
+					if fa, ok := st.Addr.(*ssa.FieldAddr); ok && fa.X == ssa.Value(al) {
+						f := fieldName(fa.X.Type(), fa.Field)
+						if f != "ArtifactType" && f != "Annotations" {
+							okW = false
+							why = "field " + f + " is written at " + w.InstrPos(st)
+						}
 					}
 				}
 			}
 		}
+		if c19AllocEscapes(al) {
+			okW = false
+			why = "the address of " + desc(al) + " is handed out"
+		}
 	}
-	c.Check(okW, "list/element-identity", "the listed descriptor keeps the predecessor's media type, digest and size (only artifact type and annotations are filled in)", w.InstrPos(node), "")
+	c.Check(okW, "list/element-identity", "the listed descriptor keeps the predecessor's media type, digest and size (only artifact type and annotations are filled in)", w.InstrPos(node), why)
 }
 
 // (d) push
@@ -638,12 +650,13 @@ func c19Push(c *Ctx) {
 	m := Mode{Kind: mErr}
 	s := w.Summarize(P, m)
 	c.Evals += s.States
-	pbs := findCalls(P, "oras.PushBytes")
+	// the envelope upload: oras.PushBytes, or its two steps spelled out (c19BlobPushes)
+	pbs := c19BlobPushes(P)
 	if len(pbs) != 1 {
 		c.Bad("push/blob", "the envelope is pushed once with oras.PushBytes", w.FnPos(P), fmt.Sprintf("%d calls", len(pbs)))
 		return
 	}
-	pb := pbs[0].(*ssa.Call)
+	pb := pbs[0]
 	pn := func(i int) string { return "param:" + P.Params[i].Name() }
 	// params: c, ctx, mediaType, blob, subject, annotations
 	var iMT, iBlob, iSub, iAnn int = -1, -1, -1, -1
@@ -667,14 +680,14 @@ func c19Push(c *Ctx) {
 		c.Unk("push/params", "anchor: PushSignature(mediaType, blob, subject, annotations)", w.FnPos(P), "signature not recognised")
 		return
 	}
-	c.Check(desc(pb.Call.Args[2]) == pn(iMT) && desc(pb.Call.Args[3]) == pn(iBlob), "push/blob", "the blob is pushed with exactly the caller's media type and bytes", w.InstrPos(pb), desc(pb))
+	c.Check(desc(pb.MT) == pn(iMT) && desc(pb.Blob) == pn(iBlob), "push/blob", "the blob is pushed with exactly the caller's media type and bytes", w.InstrPos(pb.At), desc(pb.At))
 	var UP *ssa.Function
 	var up *ssa.Call
 	for _, ci := range allCalls(P) {
 		if cc, ok := ci.(*ssa.Call); ok {
 			if g := staticCallee(cc); g != nil && w.IsProductFn(g) {
 				for _, a := range cc.Call.Args {
-					if desc(a) == desc(pb)+"#0" {
+					if desc(a) == pb.Desc {
 						UP, up = g, cc
 					}
 				}
@@ -686,13 +699,13 @@ func c19Push(c *Ctx) {
 		return
 	}
 	c.requireOnExits("push", P, s.Exits, []Need{
-		{Name: "blob-error", What: "PushBytes err == nil", Subs: []string{"EQ(" + desc(pb) + "#err,nil)"}},
+		{Name: "blob-error", What: "PushBytes err == nil", Subs: []string{pb.Err}},
 		{Name: "manifest-error", What: "manifest upload err == nil", Subs: []string{"EQ(" + desc(up) + "#err,nil)"}},
 		{Name: "pack-error", What: "oras.PackManifest err == nil", Subs: []string{"EQ(call:oras.PackManifest(", "#err,nil)"}},
 	})
 	okRet := len(s.Exits) > 0
 	for _, e := range s.Exits {
-		if desc(e.Ret.Results[0]) != res(pb, 0) || desc(e.Ret.Results[1]) != res(up, 0) {
+		if desc(e.Ret.Results[0]) != pb.Desc || desc(e.Ret.Results[1]) != res(up, 0) {
 			okRet = false
 		}
 	}
@@ -708,7 +721,7 @@ func c19Push(c *Ctx) {
 			role["param:"+UP.Params[i].Name()] = "subject"
 		case pn(iAnn):
 			role["param:"+UP.Params[i].Name()] = "annotations"
-		case desc(pb) + "#0":
+		case pb.Desc:
 			role["param:"+UP.Params[i].Name()] = "blob"
 		}
 	}
@@ -813,19 +826,13 @@ func c19Push(c *Ctx) {
 				}
 			}
 		}
-		// never written outside its initialiser
-		for _, fn := range w.FuncsOfPkg("registry") {
-			if fn.Name() == "init" {
-				continue
-			}
-			for _, b := range fn.Blocks {
-				for _, in := range b.Instrs {
-					if st, ok := in.(*ssa.Store); ok {
-						if strings.HasPrefix(desc(st.Addr), gname) {
-							immut = false
-						}
-					}
-				}
+		// never written outside its initialiser, never handed out by address (decided on addresses rooted at the
+		// global itself: a local copy of it is another variable)
+		if sp := w.Pkg("registry"); sp != nil {
+			if gv, ok := sp.Members[name].(*ssa.Global); ok {
+				immut = !c19GlobalWritten(w, "registry", gv)
+			} else {
+				immut = false
 			}
 		}
 	}
